@@ -301,6 +301,10 @@ def _jsonable(x):
     return str(x)
 
 
+_TIMEOUTS = [0]
+MAX_TIMEOUTS = 6      # an implementation that hangs on case after case is reported after a few of them, not after all
+
+
 def run_impl(h, case):
     """Run the implementation on one case under an alarm; exceptions become observations."""
     # the budget is CPU time of this process (a loaded machine must not turn into an alarm); wall clock is only a backstop
@@ -312,6 +316,7 @@ def run_impl(h, case):
         obs = h.execute(case)
     except CaseTimeout:
         obs = {'harness_exception': 'Timeout'}
+        _TIMEOUTS[0] += 1
     except Exception as e:  # the harness itself must catch expected exceptions
         obs = {'harness_exception': type(e).__name__ + ': ' + str(e), 'traceback': traceback.format_exc()[-1500:]}
     finally:
@@ -427,7 +432,16 @@ def main_check(h, tier, seed, replay=None):
     for i, case in enumerate(cases):
         obs = run_impl(h, case)
         observations.append(obs)
-        if 'harness_exception' in obs:
+        if obs.get('harness_exception') == 'Timeout':
+            # the budget is tens of CPU seconds for cases that take milliseconds: an implementation that does not come back is
+            # a failing input of its own (the case is the replay); after a few of them the remaining cases are not run
+            violations.append({'case_index': i, 'signature': 'no-termination-within-the-case-budget', 'kind': 'direct',
+                               'detail': {'cpu_seconds_allowed': h.CASE_TIMEOUT}})
+            if _TIMEOUTS[0] >= MAX_TIMEOUTS:
+                report['direct']['stopped_after_timeouts'] = i + 1
+                cases = cases[:i + 1]
+                break
+        elif 'harness_exception' in obs:
             violations.append({'case_index': i, 'signature': 'harness:' + obs['harness_exception'].split(':')[0],
                                'detail': obs, 'kind': 'harness'})
         else:
@@ -437,7 +451,12 @@ def main_check(h, tier, seed, replay=None):
             k = h.nontrivial(case, obs)
             if k is not None:
                 keys.add(k if isinstance(k, str) else json.dumps(k, sort_keys=True, default=str))
-            t = h.to_coq(case, obs)
+            try:
+                t = h.to_coq(case, obs)
+            except Exception as e:      # an observation the rendering cannot express is a broken tie for that case, not a crash
+                t = None
+                violations.append({'case_index': i, 'signature': 'harness:cannot-render-for-the-model:' + type(e).__name__,
+                                   'detail': {'error': str(e)[:300]}, 'kind': 'harness'})
             if t is not None:
                 terms.append(t); idx_of_term.append(i)
         for sk, sv in (obs.get('stats') or {}).items() if isinstance(obs, dict) else []:
